@@ -60,7 +60,7 @@ def seeds():
         v = m.get("verification", {})
         def res(c):
             viol = [l for l in c.get("lines", []) if l.startswith("VIOLATION")]
-            return "MISSED" if c["exit"] == 0 else ("infra" if c["exit"] == 2 else ("caught, no failing input" if viol and "no-failing-input-found" in viol[0] else "caught"))
+            return "MISSED" if c["exit"] == 0 else ("infra" if c["exit"] == 2 else "timeout" if c["exit"] == 124 else ("caught, no failing input" if viol and "no-failing-input-found" in viol[0] else "caught"))
         first = ", ".join("%s %s" % (p, res(c)) for p, c in v.get("checks", {}).items())
         later = {}
         for r in m.get("later_runs", []):
